@@ -1,6 +1,7 @@
 import Pyrtma.Proofs.DataLog
 import Pyrtma.Proofs.DataLogFmt
 import Pyrtma.Proofs.DataLogLive
+import Pyrtma.Proofs.DataLogFineMain
 /-!
 # C17 — the data logger loses, duplicates and reorders nothing
 
@@ -106,6 +107,145 @@ theorem old_order_loses :
     verdict (accepted .all false opsF1) ((run (cfg1 false) opsF1 schedF1).ds 0).files = "fail lost" := by
   decide +kernel
 
+/-! ### the same at the granularity CPython guarantees (`Model/DataLogFine.lean`)
+
+One step = one access to an object both threads can reach (event operation, `is_alive()`, read / write of a shared
+`DataSet` attribute, one list operation, one file-system operation); every file-system operation may fail
+(`Cfg.fault`, an arbitrary predicate on the operation's global number).  Schedules are arbitrary lists over
+`{R, W}` of these steps.  No region is assumed atomic and there is no lock: the exclusion is a theorem. -/
+
+section fine
+open Pyrtma.DataLog.Fine
+
+/-- **Exactly once, in arrival order — at single-access granularity.**  For every configuration (any number
+of data sets, selections, intervals, formatter classes, with or without the proposed `is_alive` patch), every
+failure pattern of the file system, every operation list and every interleaving of single accesses: when
+`stop()` has returned, the concatenation of the files of every data set is exactly the accepted sequence. -/
+theorem fine_no_loss_no_dup_no_reorder (c : Fine.Cfg) (ops : List RecOp) (sched : List Fine.Tid)
+    (hdone : (Fine.run c ops sched).rpc = .done) (i : Nat) (hi : i < c.n) :
+    complete (accepted (c.sel i) false ops) ((Fine.run c ops sched).ds i).fileLogs = true := by
+  have h := (Fine.run_inv c ops sched).at_done hdone i hi
+  simpa [complete, Fine.Ds.written] using h
+
+/-- The same through the Spec clause the driver evaluates on the implementation. -/
+theorem fine_complete_if_done (c : Fine.Cfg) (ops : List RecOp) (sched : List Fine.Tid) (o : Outcome)
+    (ho : outcomeOf c (Fine.run c ops sched) = some o) (i : Nat) (hi : i < c.n) :
+    completeIfDone o (accepted (c.sel i) false ops) ((Fine.run c ops sched).ds i).fileLogs = true := by
+  unfold completeIfDone
+  by_cases hd : (Fine.run c ops sched).rpc = .done
+  · simp [fine_no_loss_no_dup_no_reorder c ops sched hd i hi]
+  · have : o ≠ .done := by
+      intro e; subst e
+      unfold outcomeOf at ho
+      simp only [hd, if_false] at ho
+      split at ho <;> (try split at ho) <;> simp at ho
+    simp [this]
+
+/-- **Mutual exclusion is a theorem, not an assumption**: on every schedule, whenever the writer is anywhere
+between loading `self.formatter` for `ds[k].write()` and its last access of `subdivide()`, the recording thread
+is at a place where it touches neither a `wbuf` attribute, nor a staged list, nor a file object (start of an
+operation, `is_alive`, `rbuf.append`, `subdivide_flag = True`, `is_set`, the wait loop of `stop()`), and
+`write_to_disk` is set, `write_finished` clear.  The two events are the only synchronisation there is. -/
+theorem fine_no_swap_under_writer (c : Fine.Cfg) (ops : List RecOp) (sched : List Fine.Tid)
+    (ho : (Fine.run c ops sched).over = false) (k : Nat) (hk : wIdx (Fine.run c ops sched).wpc = some k) :
+    rcls (Fine.run c ops sched).rpc = .safe ∧ (Fine.run c ops sched).td = true ∧
+      (Fine.run c ops sched).fin = false ∧ k < c.n :=
+  (Fine.run_inv c ops sched).excl ho k hk
+
+/-- … and the other way round: while `trigger_write` swaps the buffers or `stop()` stages, finalises and closes,
+the writer is parked at `write_to_disk.wait()` or at the `write_to_disk.clear()` that ends its cycle. -/
+theorem fine_writer_parked_while_recorder_owns (c : Fine.Cfg) (ops : List RecOp) (sched : List Fine.Tid)
+    (ho : (Fine.run c ops sched).over = false) (hu : (rcls (Fine.run c ops sched).rpc).safe? = false) :
+    (Fine.run c ops sched).wpc = .wait ∨ (Fine.run c ops sched).wpc = .clrTD :=
+  (Fine.run_inv c ops sched).excl' ho hu
+
+/-- **References are never stale**: the list object and the formatter a thread has loaded into a local are
+still what `ds.wbuf` / `ds.formatter` refer to whenever it uses them, and the indices into the formatters'
+scripts of file operations are in range (so the model's "unreachable" branches are unreachable). -/
+theorem fine_loaded_references_current (c : Fine.Cfg) (ops : List RecOp) (sched : List Fine.Tid) :
+    WLoc c (Fine.run c ops sched) ∧ RLoc c (Fine.run c ops sched) :=
+  ⟨(Fine.run_inv c ops sched).wloc, (Fine.run_inv c ops sched).rloc⟩
+
+/-- **Without file-system failures nothing raises**: the writer never dies (no write, seek or copy ever hits a
+closed file or a closed temp file) and neither `update` nor `stop` raises — on every schedule. -/
+theorem fine_writer_never_dies (c : Fine.Cfg) (hnf : ∀ k, c.fault k = false) (ops : List RecOp)
+    (sched : List Fine.Tid) :
+    (Fine.run c ops sched).wpc ≠ .dead ∧ (Fine.run c ops sched).rpc ≠ .raisedT ∧
+      (Fine.run c ops sched).rpc ≠ .raisedIO :=
+  Fine.run_noexc c ops sched hnf
+
+/-- **A failed file-system operation is never silent**: if any operation was made to fail, the thread that
+performed it has been stopped by the exception, and `stop()` does not return normally — it raises (recorder's
+own operation; or, with the patch, `DataCollectionThreadError`), `update` raises, or (code as it is) `stop()`
+hangs: see below. -/
+theorem fine_failure_is_never_silent (c : Fine.Cfg) (ops : List RecOp) (sched : List Fine.Tid)
+    (hf : firedB c (Fine.run c ops sched) = true) :
+    ((Fine.run c ops sched).wpc = .dead ∨ (Fine.run c ops sched).rpc = .raisedIO) ∧
+      (Fine.run c ops sched).rpc ≠ .done := by
+  have ht := Fine.run_told c ops sched ((firedB_iff _ _).1 hf)
+  refine ⟨ht, fun hd => ?_⟩
+  rcases ht with h | h
+  · exact (Fine.run_inv c ops sched).done_not_dead hd h
+  · rw [hd] at h; cases h
+
+/-- the Spec clause `toldOnFailure` holds for every outcome of every run -/
+theorem fine_told_on_failure (c : Fine.Cfg) (ops : List RecOp) (sched : List Fine.Tid) (o : Outcome)
+    (ho : outcomeOf c (Fine.run c ops sched) = some o) :
+    toldOnFailure (firedB c (Fine.run c ops sched)) o = true := by
+  unfold toldOnFailure
+  cases hf : firedB c (Fine.run c ops sched)
+  · simp
+  · have := (fine_failure_is_never_silent c ops sched hf).2
+    have : o ≠ .done := by
+      intro e; subst e
+      unfold outcomeOf at ho
+      simp only [this, if_false] at ho
+      split at ho <;> (try split at ho) <;> simp at ho
+    simp [this]
+
+/-- **The only thing that can keep `stop()` waiting**: in its wait loop, either `write_finished` is set, or
+`write_to_disk` is set and the writer is inside a cycle that ends by setting it — or dead. -/
+theorem fine_stop_waits_only_for_writer (c : Fine.Cfg) (ops : List RecOp) (sched : List Fine.Tid)
+    (hr : waiting (Fine.run c ops sched).rpc = true) :
+    (Fine.run c ops sched).fin = true ∨
+      ((Fine.run c ops sched).td = true ∧ (Fine.run c ops sched).wpc ≠ .clrTD) := by
+  rcases (Fine.run_inv c ops sched).wait_reason hr with h | h | h
+  · exact Or.inl h
+  · exact Or.inr ⟨h.1, h.2.1⟩
+  · exact Or.inr ⟨h.1, by rw [h.2.1]; simp⟩
+
+/-! #### C17-F3: `stop()` hangs once the writer has died -/
+
+def cfgF3 : Fine.Cfg :=
+  { n := 1, sel := fun _ => .all, interval := fun _ => 0, kind := fun _ => .plain, fault := fun k => k == 0 }
+def opsF3 : List RecOp := [.update 16 ⟨1, 0⟩, .update 16 ⟨2, 1⟩]
+
+/-- Round-robin, the first file-system operation of the session (the writer's `fd.write` of message 1) fails:
+after 22 rounds the writer is dead, the recording thread is in the wait loop of `stop()` with `write_finished`
+clear — and stays there for every continuation whatsoever. -/
+theorem stop_hangs_after_writer_death (l : List Fine.Tid) :
+    let s := (Fine.run cfgF3 opsF3 (Fine.roundRobin 22 ++ l))
+    s.wpc = .dead ∧ s.rpc = .sWait ∧ s.fin = false ∧ s.over = false := by
+  have h0 : (Fine.run cfgF3 opsF3 (Fine.roundRobin 22)).hung cfgF3 = true := by decide +kernel
+  have h1 : (Fine.run cfgF3 opsF3 (Fine.roundRobin 22 ++ l)).hung cfgF3 = true := by
+    unfold Fine.run; rw [List.foldl_append]; exact hung_forever _ l h0
+  have h2 := hung_not_over _ h1
+  simp only [State.hung, Bool.and_eq_true, beq_iff_eq, Bool.not_eq_true'] at h1
+  exact ⟨h1.1.2, h1.1.1.1, h1.1.1.2, h2⟩
+
+/-- … and a dead writer is the only way to get there: a hang state has a dead writer (by definition), and the
+writer only dies of a failed file-system operation (`fine_writer_never_dies`). -/
+theorem writer_death_is_the_only_hang (c : Fine.Cfg) (hnf : ∀ k, c.fault k = false) (ops : List RecOp)
+    (sched : List Fine.Tid) : (Fine.run c ops sched).hung c = false := by
+  have := (fine_writer_never_dies c hnf ops sched).1
+  simp [State.hung, this]
+
+/-- with the proposed patch the same run ends: `stop()` raises `DataCollectionThreadError` -/
+example : (Fine.run { cfgF3 with aliveCheck := true } opsF3 (Fine.roundRobin 24)).rpc = .raisedT := by
+  decide +kernel
+
+end fine
+
 /-! ### file formats: for every partition of the message list into `write()` batches plus the `finalize()` batch -/
 
 open Pyrtma.DataLog.Fmt in
@@ -189,5 +329,34 @@ example :
     let m3 : FMsg := ⟨[3, 0, 0, 0, 1, 0, 0, 0], [9]⟩
     qlRead 4 (qlFile 8 [[m1], [m2]] [m3]) = [m1, m2, m3] ∧ qlFile 8 [[m1], [m2]] [m3] = qlFile 8 [] [m1, m2, m3] ∧
     (qlFile 8 [[m1], [m2]] [m3]).length = 24 + 24 + 12 + 3 := by decide +kernel
+
+section fine_nonvacuity
+open Pyrtma.DataLog.Fine
+
+/-- fine granularity, quicklogger + sub-division and a plain data set with a selection, a pause; the schedule
+lets the writer run three accesses for every access of the recorder: `stop()` returns, three files in all -/
+example :
+    let c : Fine.Cfg := { n := 2, sel := fun i => if i = 0 then .all else .only [1],
+                          interval := fun i => if i = 0 then 30 else 0, kind := fun i => if i = 0 then .ql else .plain }
+    let ops : List RecOp := [.update 16 ⟨1, 0⟩, .pause 1, .update 1 ⟨2, 1⟩, .resume 1, .update 20 ⟨3, 1⟩, .tick 20]
+    let s := Fine.run c ops ((List.replicate 60 [Fine.Tid.R, .W, .W, .W]).flatten ++ Fine.roundRobin 40)
+    s.rpc = .done ∧ (s.ds 0).fileLogs = [[⟨1, 0⟩, ⟨3, 1⟩], []] ∧ (s.ds 1).fileLogs = [[⟨3, 1⟩]] ∧
+    ((s.ds 0).files 0).log1 = [⟨1, 0⟩, ⟨3, 1⟩] := by decide +kernel
+
+/-- the premise of `fine_no_swap_under_writer` is met with the recorder in the middle of an `update`: after
+`R×7, W×4, R×2` the writer is between two accesses of `formatter.write` for data set 0 while the recorder is
+about to append the second message to `rbuf` -/
+example :
+    let s := Fine.run { cfgF3 with fault := fun _ => false } opsF3
+      (List.replicate 7 .R ++ List.replicate 4 .W ++ List.replicate 2 .R)
+    s.wpc = .call 0 ∧ s.rpc = .uAppend 0 ∧ s.over = false := by decide +kernel
+
+/-- the premise of `fine_failure_is_never_silent` is met by a failure in `stop()`'s own `finalize` -/
+example :
+    let s := Fine.run { cfgF3 with fault := fun k => k == 1 } opsF3 (Fine.roundRobin 60)
+    firedB { cfgF3 with fault := fun k => k == 1 } s = true ∧ s.rpc = .raisedIO ∧ s.wpc ≠ .dead := by
+  decide +kernel
+
+end fine_nonvacuity
 
 end Pyrtma.C17
